@@ -46,16 +46,24 @@ Definition xcls_eqb (a b : xcls) : bool :=
   end.
 Definition where_eqb (a b : where_) : bool :=
   match a, b with InOnMessage, InOnMessage | InCallback, InCallback => true | _, _ => false end.
-Definition det_eqb (a b : option (N * bool)) : bool :=
+Definition on_eqb (a b : option N) : bool :=
+  match a, b with None, None => true | Some x, Some y => x =? y | _, _ => false end.
+Definition ob_eqb (a b : option bool) : bool :=
+  match a, b with None, None => true | Some x, Some y => eqb x y | _, _ => false end.
+Definition idet_eqb (a b : idet) : bool :=
+  let '(c, u, p) := a in let '(c', u', p') := b in on_eqb c c' && on_eqb u u' && on_eqb p p'.
+Definition cdet_eqb (a b : cdet) : bool :=
+  let '(c, u, p) := a in let '(c', u', p') := b in on_eqb c c' && on_eqb u u' && (p =? p').
+Definition det_eqb (a b : option (cdet * bool)) : bool :=
   match a, b with
   | None, None => true
-  | Some (c, p), Some (c', p') => (c =? c') && eqb p p'
+  | Some (c, p), Some (c', p') => cdet_eqb c c' && eqb p p'
   | _, _ => false
   end.
 Definition out_eqb (a b : out) : bool :=
   match a, b with
   | OAccepted k r g a c p w, OAccepted k' r' g' a' c' p' w' =>
-      (k =? k') && (r =? r') && (g =? g') && payload_eqb a a' && (c =? c') && eqb p p' && eqb w w'
+      (k =? k') && (r =? r') && (g =? g') && payload_eqb a a' && idet_eqb c c' && ob_eqb p p' && eqb w w'
   | OCalled k r g a d, OCalled k' r' g' a' d' => (k =? k') && (r =? r') && (g =? g') && payload_eqb a a' && det_eqb d d'
   | OSent m, OSent m' => wmsg_eqb m m'
   | ORaised w x, ORaised w' x' => where_eqb w w' && xcls_eqb x x'
